@@ -6,6 +6,9 @@
 //!   `rows` / `wire` — `TableBuffer::push_row_and_timestamp` (row API) resp. the capnp wire builder, then
 //!             `EventBuffer::serialize → deserialize` and the server-side `InputColumn::from_column_data`;
 //!   `xor`   — `xor_float::double::encode / decode`, bytes and decoded bit patterns.
+//!   `client` — the real `LoggingClient` (`log` → buffer → `create_request_data` → POST `/insert_bin`) against a local
+//!             capture endpoint; every request body is decoded the way the server's `/insert_bin` handler does
+//!             (`EventBuffer::deserialize`, then `from_column_data` per column as in `ingest_efficient`).
 //! The model line carries the inputs and, after ` :: `, the implementation output (the specification is a
 //! relation between input and implementation output, judged by the Lean driver).
 use std::collections::{BTreeMap, HashMap};
@@ -90,10 +93,13 @@ fn walk(start: i64, deltas: &[i64]) -> Option<Vec<i64>> {
 }
 
 fn gen_ints(cases: &mut Cases, rng: &mut Rng, thorough: bool) {
-    // witnesses of known findings first
-    push_ints(cases, &[i64::MIN, i64::MAX, 0], "witness api-delta-i64-overflow");
-    push_ints(cases, &[i64::MIN, -1, i64::MAX - 1], "witness api-range-decode-mul-overflow");
-    push_ints(cases, &[i64::MIN, 0, i64::MAX], "first difference overflows, second difference fits i8");
+    // witnesses of the two fixed findings first (kept so that a regression is reported again)
+    push_ints(cases, &[i64::MIN, i64::MAX, 0], "witness of fixed finding api-delta-i64-overflow (serializer panicked)");
+    push_ints(cases, &[i64::MIN, -1, i64::MAX - 1], "witness of fixed finding api-range-decode-mul-overflow (Range decoder panicked)");
+    push_ints(cases, &[i64::MIN, 0, i64::MAX], "first differences overflow i64, second difference fits i8: double-delta with wrapped first differences");
+    push_ints(cases, &[i64::MIN, i64::MAX], "two values whose difference overflows i64: double-delta i8 with empty data");
+    push_ints(cases, &[i64::MAX, i64::MIN, i64::MAX, i64::MIN], "alternating extremes: plain");
+    push_ints(cases, &[0, i64::MAX, -2, i64::MAX - 2], "second differences overflow i64");
     push_ints(cases, &[i64::MAX, 0, -i64::MAX], "range with step -MAX");
     // all sequences of length 0..2 over the small edge alphabet; length 3 over a smaller one
     let small: &[i64] = &[0, 1, -1, 127, 128, -128, -129, i64::MAX, i64::MIN, 32768, -2147483649, 1 << 62];
@@ -529,6 +535,125 @@ fn gen_xor(cases: &mut Cases, rng: &mut Rng, thorough: bool) {
     }
 }
 
+
+// ------------------------------------------------------------------------------------------------
+// client: LoggingClient::log → background worker → POST /insert_bin (captured) → server-side decode
+
+type Bodies = std::sync::Arc<std::sync::Mutex<HashMap<String, Vec<Vec<u8>>>>>;
+
+async fn capture(path: actix_web::web::Path<String>, body: actix_web::web::Bytes, data: actix_web::web::Data<Bodies>) -> actix_web::HttpResponse {
+    data.lock().unwrap().entry(path.into_inner()).or_default().push(body.to_vec());
+    actix_web::HttpResponse::Ok().json(r#"{"status": "ok"}"#)
+}
+
+/// A local endpoint `POST /<case>/insert_bin` that records request bodies per case.
+fn start_capture(store: Bodies) -> u16 {
+    let (tx, rx) = std::sync::mpsc::channel();
+    std::thread::spawn(move || {
+        actix_web::rt::System::new().block_on(async move {
+            let data = actix_web::web::Data::new(store);
+            let srv = actix_web::HttpServer::new(move || {
+                actix_web::App::new().app_data(data.clone()).app_data(actix_web::web::PayloadConfig::new(1 << 26))
+                    .route("/{case}/insert_bin", actix_web::web::post().to(capture))
+            }).workers(1).bind(("127.0.0.1", 0)).unwrap();
+            tx.send(srv.addrs()[0].port()).unwrap();
+            srv.run().await.unwrap();
+        });
+    });
+    rx.recv().unwrap()
+}
+
+/// What `/insert_bin` makes of one request body: tables sorted by name, each decoded like `ingest_efficient` does.
+fn dump_request(body: &[u8]) -> (String, usize) {
+    match EventBuffer::deserialize(body) {
+        Err(_) => ("undecodable".to_string(), 0),
+        Ok(eb) => {
+            let tables: BTreeMap<String, TableBuffer> = eb.tables.into_iter().collect();
+            let rows: usize = tables.values().map(|t| t.len()).sum();
+            (tables.into_iter().map(|(name, tb)| format!("{}:{}", hexs(&name), dump_server_table(tb))).collect::<Vec<_>>().join(" ;; "), rows)
+        }
+    }
+}
+
+struct ClientCtx { rt: tokio::runtime::Runtime, store: Bodies, port: u16, n: usize }
+
+fn run_client(ctx: &mut ClientCtx, cases: &mut Cases, events: &[(String, Row)], interval_ms: u64, pauses: &[usize], note: &str) {
+    use vharness::locustdb::logging_client::{BufferFullPolicy, LoggingClient};
+    ctx.n += 1;
+    let case = format!("c{}", ctx.n);
+    let bodies = {
+        let _guard = ctx.rt.enter();
+        let mut client = LoggingClient::new(std::time::Duration::from_millis(interval_ms), &format!("http://127.0.0.1:{}/{}", ctx.port, case),
+            1 << 30, BufferFullPolicy::Drop, None);
+        for (i, (table, row)) in events.iter().enumerate() {
+            client.log(table, row.clone());
+            if pauses.contains(&i) { std::thread::sleep(std::time::Duration::from_millis(interval_ms * 4 + 5)); }
+        }
+        drop(client); // cancels the worker, waits until everything buffered has been sent
+        ctx.store.lock().unwrap().remove(&case).unwrap_or_default()
+    };
+    let decoded: Vec<(String, usize)> = bodies.iter().map(|b| dump_request(b)).collect();
+    // the split of the event sequence into requests depends on timing: it is an input of the model (like the clock)
+    let sizes: Vec<usize> = decoded.iter().map(|d| d.1).collect();
+    let out = if decoded.is_empty() { "none".to_string() } else { decoded.iter().map(|d| d.0.clone()).collect::<Vec<_>>().join(" ## ") };
+    let evs = if events.is_empty() { "[]".to_string() } else { events.iter().map(|(t, r)| format!("{}|{}", hexs(t), row_tok(r))).collect::<Vec<_>>().join(" ") };
+    let ntab = events.iter().map(|e| e.0.clone()).collect::<std::collections::BTreeSet<_>>().len();
+    let class = format!("client:{}:{}", match ntab { 0 => "t0", 1 => "t1", 2 => "t2", _ => "t3+" }, match sizes.len() { 0 => "m0", 1 => "m1", _ => "m2+" });
+    cases.push(&class, &format!("client {} {} :: {}", ilist(sizes.iter()), evs, out), &out, note);
+}
+
+const TABLE_POOL: &[&str] = &["t", "T", "u", "", "ünï", "a b", "a/b", "..", "tab.le", "_meta_tables"];
+
+fn gen_client(cases: &mut Cases, rng: &mut Rng, thorough: bool) {
+    use AnyVal::*;
+    let store: Bodies = Default::default();
+    let port = start_capture(store.clone());
+    let rt = tokio::runtime::Builder::new_multi_thread().worker_threads(2).enable_all().build().unwrap();
+    let mut ctx = ClientCtx { rt, store, port, n: 0 };
+    let s = |x: &str| x.to_string();
+    let ts = |i: usize| (s("timestamp"), Float(i as f64));
+    let hour = 3_600_000u64;
+    run_client(&mut ctx, cases, &[], hour, &[], "nothing logged: no request");
+    run_client(&mut ctx, cases, &[(s("t"), vec![ts(0), (s("a"), Int(1))])], hour, &[], "one row, one table");
+    run_client(&mut ctx, cases, &[(s("t"), vec![ts(0), (s("a"), Int(1))]), (s("u"), vec![ts(1), (s("a"), Str(s("x")))]), (s("t"), vec![ts(2)]),
+        (s("t"), vec![ts(3), (s("a"), Float(0.5))])], hour, &[], "two tables interleaved; sparse int promoted to float");
+    run_client(&mut ctx, cases, &[(s(""), vec![ts(0), (s("a"), Int(i64::MIN))]), (s("T"), vec![ts(1)]), (s("t"), vec![ts(2), (s("A"), Null)])], hour, &[], "empty table name, case pair, NULL-only column");
+    run_client(&mut ctx, cases, &[(s("t"), vec![ts(0), (s("a"), Int(1))]), (s("t"), vec![ts(1), (s("a"), Int(2))]), (s("t"), vec![ts(2), (s("a"), Int(3))])], 2, &[0, 1],
+        "a tick between rows: the second request starts from an empty buffer");
+    let long = "L".repeat(300);
+    run_client(&mut ctx, cases, &[(long.clone(), vec![ts(0), (s("a"), Int(7))])], hour, &[], "300-byte table name");
+    let n = if thorough { 1200 } else { 120 };
+    for k in 0..n {
+        let ntab = 1 + rng.below(3) as usize;
+        let tables: Vec<String> = (0..ntab).map(|_| rng.pick(TABLE_POOL).to_string()).collect();
+        // per table: columns with a fixed plan (string columns are present in every row so that any split keeps them dense)
+        let plans: Vec<Vec<(&str, ColPlan, u64)>> = tables.iter().map(|_| {
+            let nc = rng.below(4) as usize;
+            ["a", "b", "A", "a.b"][..nc].iter().map(|c| {
+                let p = *rng.pick(&[ColPlan::Ints, ColPlan::Floats, ColPlan::IntsThenFloats, ColPlan::Numeric, ColPlan::Strs]);
+                (*c, p, *rng.pick(&[0u64, 2, 3]))
+            }).collect()
+        }).collect();
+        let nev = *rng.pick(&[1usize, 2, 3, 5, 8, 13]);
+        let mut events: Vec<(String, Row)> = vec![];
+        for i in 0..nev {
+            let ti = rng.below(ntab as u64) as usize;
+            // the same table name may have been drawn twice: use the plan of its first occurrence
+            let ti = tables.iter().position(|t| *t == tables[ti]).unwrap();
+            let mut row: Row = vec![ts(i)];
+            for (name, plan, gap) in &plans[ti] {
+                if let Some(v) = plan_val(rng, *plan, i, nev, *gap) { row.push((name.to_string(), v)); }
+            }
+            // column order within a row is arbitrary
+            if rng.chance(1, 2) { row.reverse(); }
+            events.push((tables[ti].clone(), row));
+        }
+        let ticking = k % 4 == 0;
+        let pauses: Vec<usize> = if ticking { (0..nev).filter(|_| rng.chance(1, 3)).collect() } else { vec![] };
+        run_client(&mut ctx, cases, &events, if ticking { 2 } else { hour }, &pauses, if ticking { "random events, worker ticking every 2 ms" } else { "random events, one request at drop" });
+    }
+}
+
 use vharness_xor_reexport as vharness_xor;
 mod vharness_xor_reexport { pub use locustdb_compression_utils::xor_float::*; }
 
@@ -543,5 +668,6 @@ fn main() {
     if want("rows") { gen_rows(&mut cases, &mut rng.fork(), args.thorough()); }
     if want("wire") { gen_wire(&mut cases, &mut rng.fork(), args.thorough()); }
     if want("xor") { gen_xor(&mut cases, &mut rng.fork(), args.thorough()); }
+    if want("client") { gen_client(&mut cases, &mut rng.fork(), args.thorough()); }
     cases.finish();
 }
